@@ -8,8 +8,17 @@ use std::process::{Command, Stdio};
 use std::sync::atomic::{AtomicU64, Ordering};
 use std::time::{Duration, Instant};
 
-pub const CLI_BIN: &str = "/verif/target/cli/release/emulator_8086";
-pub const RUN_DIR: &str = "/verif/target/run";
+/// root of the verification tree: /verif, or a snapshot of it when VERIF_HOME is set (used to try
+/// seeded changes on a copy while /verif and /repo are being worked on)
+pub fn home() -> String {
+    std::env::var("VERIF_HOME").unwrap_or_else(|_| "/verif".to_string())
+}
+pub fn cli_bin() -> String {
+    format!("{}/target/cli/release/emulator_8086", home())
+}
+pub fn run_dir() -> String {
+    format!("{}/target/run", home())
+}
 
 static SEQ: AtomicU64 = AtomicU64::new(0);
 pub static CLI_RUNS: AtomicU64 = AtomicU64::new(0);
@@ -89,20 +98,20 @@ impl Default for CliOpts {
 }
 
 pub fn ensure_bin() {
-    if !std::path::Path::new(CLI_BIN).exists() {
-        eprintln!("MACHINERY: CLI binary {} missing (run ./build.sh)", CLI_BIN);
+    if !std::path::Path::new(&cli_bin()).exists() {
+        eprintln!("MACHINERY: CLI binary {} missing (run ./build.sh)", cli_bin());
         std::process::exit(2);
     }
-    let _ = std::fs::create_dir_all(RUN_DIR);
+    let _ = std::fs::create_dir_all(run_dir());
 }
 
 /// Run the CLI on source bytes with the given stdin script (pipe closed after the script).
 pub fn run_cli_bytes(src: &[u8], stdin: &[u8], o: &CliOpts) -> CliOut {
     let n = SEQ.fetch_add(1, Ordering::Relaxed);
     CLI_RUNS.fetch_add(1, Ordering::Relaxed);
-    let path = format!("{}/{}-{}.s", RUN_DIR, std::process::id(), n);
+    let path = format!("{}/{}-{}.s", run_dir(), std::process::id(), n);
     std::fs::write(&path, src).expect("write source");
-    let mut cmd = Command::new(CLI_BIN);
+    let mut cmd = Command::new(cli_bin());
     cmd.arg(&path);
     if o.interpreted {
         cmd.arg("-i");
